@@ -44,6 +44,7 @@ EXPLANATION = (
     "(U5, values) the configured upload size limit reaches the handler unchanged (abstract evaluation with 0)."
     ' (U7) the configured token list reaches the upload handler unfiltered: no store to ServerConfig.titan_auth_tokens and no step of from_toml / get_upload_handler / FileUploadHandler.__init__ contains a filtering or element-rewriting comprehension, filter()/map() or a trimming call.'
     ' (U8) = C15.X6 (log processors total). (U9) carrier rule on titan_* settings.'
+    ' (U10) the request parsers return a fresh object per call: no memoising decorator on from_line.'
 )
 
 HANDLER = "server.handler:FileUploadHandler"
@@ -440,5 +441,8 @@ def run(chk: Check) -> None:
     for o in chk.obligations[nob:]:
         o["rule"] = f"{chk.prop}.U6"
     chk.rules.pop("S2", None)
+    from .common import request_objects_fresh
+
+    request_objects_fresh(chk, "U10")
     chk.trusted = ["CPython ast parser", "engine CFG / abstract evaluator / reaching definitions", "POSIX rename atomicity; pathlib.resolve"]
     chk.assumptions = ["an empty token list means no authentication is configured (the property says 'if tokens are configured')", "directories created by mkdir(parents=True) for a later-failing store are not considered"]
